@@ -69,7 +69,7 @@ func (h *HTTPAnswers) Do(client *http.Client, request *http.Request) (*http.Resp
 	return &http.Response{
 		Request: request, Status: fmt.Sprintf("%d %s", m.Status, http.StatusText(m.Status)), StatusCode: m.Status,
 		Proto: "HTTP/1.0", ProtoMajor: 1, ProtoMinor: 0,
-		Header:        http.Header{"Content-Type": []string{"application/json"}},
+		Header:        http.Header{"Content-Type": []string{"application/json"}, "X-Verif-A": []string{"1"}, "X-Verif-B": []string{"2"}},
 		Body:          io.NopCloser(bytes.NewReader([]byte(m.Body))),
 		ContentLength: int64(len(m.Body)),
 	}, nil
@@ -79,7 +79,7 @@ func (h *HTTPAnswers) Do(client *http.Client, request *http.Request) (*http.Resp
 func NewEngine(o Options) flows.Engine {
 	b := engine.NewBuilder().
 		WithEmailServiceFactory(func(flows.SessionAssets) (flows.EmailService, error) { return emailSvc{}, nil }).
-		WithWebhookServiceFactory(webhooks.NewServiceFactory(http.DefaultClient, nil, nil, map[string]string{"User-Agent": "goflow-verif"}, 10000)).
+		WithWebhookServiceFactory(webhooks.NewServiceFactory(http.DefaultClient, nil, nil, map[string]string{"User-Agent": "goflow-verif", "X-Engine": "verif"}, 10000)).
 		WithClassificationServiceFactory(func(c *flows.Classifier) (flows.ClassificationService, error) { return classSvc{c}, nil }).
 		WithAirtimeServiceFactory(func(flows.SessionAssets) (flows.AirtimeService, error) { return airtimeSvc{}, nil })
 	if o.MaxSteps != 0 || o.Explicit {
